@@ -285,13 +285,27 @@ def c04(ctx):
     for a in sides:
         for b in sides:
             add(("B", 0, "eq", a, b))
+    # constants at the edges of the number formatter: tiny, huge, many digits, integral floats
+    odd = [Fraction("0.00002"), Fraction("0.000075"), Fraction("1e-10"), Fraction("-0.00001"), Fraction("123456789.125"),
+           Fraction(10**16), Fraction(10**21), Fraction("1234567.000001"), Fraction("0.1"), Fraction("-2.5e-7"),
+           Fraction(2**53 + 1), Fraction("1e22")]
+    for t in gen.enum_upto(3, leaves=[("C", 0, q) for q in odd] + [("V", 0, "x")]):
+        add(t)
     for _ in range(1500 if quick else 40000):
         t = gen.rand_tree(rng, rng.choice([2, 3, 3, 4]), allow_eq=rng.random() < 0.2)
         if core.tuple_size(t) <= 60:
             add(t)
     # rewrite results
     start = []
+    def small_consts(t):
+        # the library's factor() loops up to sqrt(value): keep huge constants away from the rules
+        if t[0] == "C":
+            return abs(t[2]) <= 10**6
+        return all(small_consts(c) for c in t[3:] if isinstance(c, tuple))
+
     for t in base[:: 7 if quick else 2]:
+        if not small_consts(t):
+            continue
         _, r = gen.reachable(t)
         if r is not None:
             start.append(r)
@@ -396,7 +410,7 @@ def letter_runs_oracle(text, impl):
 
 
 TOK_SYMS = ["2", "7", ".", "x", "y", "s", "g", "n", "sgn", "+", "-", "*", "/", "^", "!", "=", "(", ")", "[", "]",
-            " ", "\t", "\n", "–", "#"]
+            " ", "\t", "\n", "–", "#", "S", "N", "Sgn", "SGN"]
 
 
 def c11(ctx):
@@ -413,7 +427,7 @@ def c11(ctx):
         for combo in itertools.product(TOK_SYMS, repeat=k):
             texts.append("".join(combo))
     for _ in range(5000 if quick else 200000):
-        texts.append("".join(rng.choice(TOK_SYMS + ["12.5", "abc", "sgnx", "xsgn", "0", "9", "A", "Z", "é", "\r"])
+        texts.append("".join(rng.choice(TOK_SYMS + ["12.5", "abc", "sgnx", "xsgn", "0", "9", "A", "Z", "é", "\r", "sGn", "G", "abs", "Abs"])
                              for _ in range(rng.randint(5, 14))))
     texts = list(dict.fromkeys(texts))
     items = [(t, p) for t in texts for p in (False, True)]
@@ -453,7 +467,8 @@ def c11(ctx):
 
 # ----------------------------------------------------------------------------- C10 / C12 histories
 
-HIST_TEXTS = ["2+", "2x+1", "(", "4x^2", "1.2.3", "#", "", "x=1", "sgn(x)", "2 + 3"]
+HIST_TEXTS = ["2+", "2x+1", "(", "4x^2", "1.2.3", "#", "", "x=1", "sgn(x)", "2 + 3", "12", "1 2", "s gn(x)", "2x + 1",
+              "2 x+1", "4 + * 3", "2x)", "(x", " 2+", "x = 1", "1 . 5", "1.5", "2+ ", "SGN(x)"]
 
 
 def run_history(ops):
@@ -589,6 +604,13 @@ def c12(ctx):
     rng = random.Random(ctx.seed * 13 + 1)
     quick = ctx.tier == "quick"
     hs = histories(ctx, [1, 2, 3] if quick else [1, 2, 3, 4], ["2x+1", "2+", "(", "x=1"], 1500 if quick else 30000, rng)
+    # every ordered pair of texts, through both entry points (same text up to spacing, same failing text twice, ...)
+    for a in HIST_TEXTS:
+        for b in HIST_TEXTS:
+            for k1 in "pt":
+                for k2 in "pt":
+                    hs.append([(k1, a), (k2, b)])
+                    hs.append([(k1, a), (k2, b), (k1, a)])
     bad, diffs, hits = check_histories(ctx, hs)
     ctx.coverage["evaluations"] += len(hs)
     ctx.coverage["distinct_nontrivial"] += hits
